@@ -108,6 +108,7 @@ func labelOf(p *config.PoliciesData) string {
 }
 
 type world struct {
+	hc       *hookClock
 	mc       *clock.MockClock
 	acc      *config.TxnPoliciesAccessor
 	stuck    bool
@@ -119,7 +120,9 @@ func newWorld(d0 int64) *world {
 	mc := contextmanager.Get().SetMockClock().GetMockClock()
 	mc.Set(origin)
 	acc := config.NewTxnPoliciesAccessor(policies(d0, false))
-	return &world{mc: mc, acc: &acc}
+	w := &world{mc: mc, acc: &acc}
+	w.hc = installHookClock(w.acc)
+	return w
 }
 
 func (w *world) nowNs() int64 { return int64(w.mc.Now().Sub(origin)) }
@@ -218,6 +221,31 @@ func execCase(c proto.Case) []string {
 			p := w.acc.GetTxnPoliciesData(config.TxnID("txn-" + strconv.FormatInt(x, 10)))
 			w.quiesce()
 			outs[i] = fmt.Sprintf("data=%s t=%d", labelOf(p), t)
+		case f[0] == "lookupu" && len(f) == 3 && w != nil:
+			// a lookup with an update landing while the (new) transaction is being anchored: after the anchor is
+			// written and the accessor lock released, before setTxnVersion returns.  If the transaction is already
+			// anchored there is no such window and the update simply follows the lookup.
+			x, ok1 := kvI(f[1:2], "x")
+			d, ok2 := kvI(f[2:3], "d")
+			if !ok1 || !ok2 {
+				continue
+			}
+			t := w.nowNs()
+			var uerr error
+			upd := func() { uerr = w.acc.UpdatePoliciesData(policies(d, false), false) }
+			w.hc.arm(upd)
+			p := w.acc.GetTxnPoliciesData(config.TxnID("txn-" + strconv.FormatInt(x, 10)))
+			where := "during"
+			if w.hc.disarm() {
+				where = "after"
+				upd()
+			}
+			w.quiesce()
+			if uerr != nil {
+				outs[i] = "err:other"
+				continue
+			}
+			outs[i] = fmt.Sprintf("data=%s t=%d upd=%s", labelOf(p), t, where)
 		case f[0] == "update" && len(f) == 3 && w != nil:
 			d, ok1 := kvI(f[1:2], "d")
 			okn, ok2 := kvI(f[2:3], "ok")
@@ -300,6 +328,17 @@ func classify(c proto.Case, outs []string, o *proto.Out) {
 		if strings.HasPrefix(outs[i], "panic") {
 			continue
 		}
+		isRace := f[0] == "lookupu"
+		if isRace {
+			// classified as the lookup it is, followed by an applied update
+			if w, _ := proto.KV(a, "upd"); w == "during" {
+				o.Count("update-landed-while-anchoring-a-new-txn")
+				nontriv = true
+			} else {
+				o.Count("update-right-after-lookup-of-anchored-txn")
+			}
+			f[0] = "lookup"
+		}
 		switch f[0] {
 		case "update":
 			if a[0] == "ok" {
@@ -338,6 +377,9 @@ func classify(c proto.Case, outs []string, o *proto.Out) {
 			if v, ok := kvI(a, "vers"); ok && v > 1 {
 				o.Count("stat-several-versions-retained")
 			}
+		}
+		if isRace {
+			updates++
 		}
 	}
 	if nontriv {
